@@ -211,6 +211,8 @@ class Printer:
             return self.lit(e)
         if k == "var":
             return e["n"]
+        if k == "gconst":
+            return e["p"]
         if k == "flit":
             assert e["e"] >= 0
             return "%d.0%s" % (e["m"] * (1 << e["e"]), e["ty"] if e.get("sfx", True) else "")
@@ -324,6 +326,16 @@ def print_program(prog):
     return "\n".join(out) + "\n"
 
 
+# constants registered by the harness runtime (harness/src/bin/sem.rs): path -> (type, value)
+GCONSTS = {"LIMIT": ("u32", 10), "FLAG": ("bool", True), "lo.LIMIT": ("u32", 11), "lo.BIAS": ("i64", -5), "lo.FLAG": ("bool", False),
+           "hi.LIMIT": ("u32", 12), "hi.BIAS": ("i64", 7), "hi.er.LIMIT": ("u32", 13)}
+
+
+def gconst_table():
+    return {p: (v if t == "bool" else int_bytes(t, v)) for p, (t, v) in GCONSTS.items()}
+
+
 def spec_program(prog):
-    """the part of a program the specification needs: function table with parameter names and bodies"""
-    return {"fns": {n: {"ps": f["ps"], "b": f["b"]} for n, f in prog["fns"].items()}}
+    """the part of a program the specification needs: function table with parameter names and bodies, and the
+    registry of host constants"""
+    return {"fns": {n: {"ps": f["ps"], "b": f["b"]} for n, f in prog["fns"].items()}, "consts": gconst_table()}
